@@ -18,6 +18,8 @@ pub(crate) mod verif_sym {
     pub static mut ENC_MEAS: u64 = 0;        // raw representation returned by encode_measurement
     pub static mut STREAM_BYTE0: u8 = 0;     // every 8-byte chunk of the XOF output is [STREAM_BYTE0,0,0,0,0,0,0,0]
     pub static mut DECIDE_RESULT: u8 = 1;   // 0 => Ok(false), 1 => Ok(true), 2 => Err
+    pub static mut DECIDE_PER_CALL: [u8; 4] = [255; 4];   // per-call override of DECIDE_RESULT (255 = use DECIDE_RESULT)
+    pub static mut DECIDE_ARG0: [u64; 4] = [0; 4];         // ghost: first element of the verifier handed to the k-th decide() call
     fn zeros(n: usize) -> Vec<Field64> { match n { 0 => vec![], 1 => vec![Field64::zero()], 2 => vec![Field64::zero(); 2], 3 => vec![Field64::zero(); 3], _ => vec![Field64::zero(); 4] } }
     impl Flp for SymType {
         type Field = Field64;
@@ -40,9 +42,12 @@ pub(crate) mod verif_sym {
             Ok(zeros(self.verifier_len))
         }
         fn decide(&self, verifier: &[Field64]) -> Result<bool, FlpError> {
+            let k = unsafe { DECIDE_CALLS };
             unsafe { DECIDE_CALLS += 1; }
             if verifier.len() != self.verifier_len { return Err(FlpError::Decide(String::new())); }
-            match unsafe { DECIDE_RESULT } { 0 => Ok(false), 1 => Ok(true), _ => Err(FlpError::Decide(String::new())) }
+            if k < 4 && verifier.len() > 0 { unsafe { DECIDE_ARG0[k] = crate::field::verif_field_util::raw64(verifier[0]); } }
+            let res = unsafe { if k < 4 && DECIDE_PER_CALL[k] != 255 { DECIDE_PER_CALL[k] } else { DECIDE_RESULT } };
+            match res { 0 => Ok(false), 1 => Ok(true), _ => Err(FlpError::Decide(String::new())) }
         }
     }
     impl Type for SymType {
